@@ -2,6 +2,7 @@ package main
 
 import (
 	"fmt"
+	"sort"
 
 	"verif/e1"
 	"verif/ref"
@@ -314,9 +315,25 @@ func grid(prop string, thorough bool) []Job {
 		}
 	case "C04":
 		if thorough {
-			addAll(retryScenarios("H1T", true), 2)
-			addAll(retryScenarios("H2", true), 2)
+			// one failed attempt: bound 2 on H1T and H2; two and three failed
+			// attempts and the history with every kind of commit unit: bound 1
+			// (context bounding everywhere: switches at blocking points are free)
+			for _, h := range []string{"H1T", "H2"} {
+				for _, sc := range retryScenarios(h, true) {
+					b := 2
+					if len(sc.Attempts) > 2 {
+						b = 1
+					}
+					jobs = append(jobs, Job{Sc: sc, Bound: b})
+				}
+			}
 			addAll(retryScenarios("H4", true), 1)
+			// cheapest first, so that a budget cut drops the deepest jobs only
+			sort.SliceStable(jobs, func(i, j int) bool {
+				wi := len(jobs[i].Sc.Attempts) + 2*jobs[i].Bound
+				wj := len(jobs[j].Sc.Attempts) + 2*jobs[j].Bound
+				return wi < wj
+			})
 		} else {
 			addAll(retryScenarios("H1T", false), 1)
 			for _, sc := range retryScenarios("H2", false) {
